@@ -94,6 +94,18 @@ Theorem C06_guard_sound_seq :
         (r = RRaise EUnsupportedCapability \/ r = RFalse) /\ sends = [].
 Proof. exact guard_sound_seq. Qed.
 
+(** Argument-dependent guards (e.g. BLE send_pdu: control PDU x NoRawData flag): on every
+    interface, every path consistent with the assumption on the arguments (including paths that
+    never test them) and on which the requirement is false raises UnsupportedCapability or
+    reports failure, and transmits nothing. *)
+Theorem C06_guard_sound_op_arg :
+  forall (asm : list (string * bool)) (req : bexpr) (p : gprog),
+    checks_before_sends_op_arg asm req p = true ->
+    forall e path r sends, In (path, (r, sends)) (gpaths p e) ->
+      path_consistent asm path = true -> beval req e = false ->
+      (r = RRaise EUnsupportedCapability \/ r = RFalse) /\ sends = [].
+Proof. exact guard_sound_op_arg. Qed.
+
 (** A witness returned by the search really falsifies the requirement (so a failed check
     comes with a concrete interface to replay on the code). *)
 Theorem C06_ctor_witness_sound :
